@@ -20,6 +20,7 @@ func init() {
 			"CH-MAP token -> vector/range operation tables of the parser",
 			"PV-ROLE build recursion: each recursive call is on an operand field of the current node (nested aggregations are not flattened)",
 			"PV-CMP comparators are not differences",
+			"PV-WHOLE LabelSet.Range visits every label",
 		},
 		NotDecided: []string{"aggregate arithmetic (Welford, NaN handling)", "final ordering for ties", "container/heap correctness"},
 		Rules: func(r *Run) {
@@ -41,6 +42,7 @@ func init() {
 			ruleBuildDescendsOneLevel(r)
 			ruleBuildKeepsTree(r)
 			ruleComparatorsNoSubtraction(r, []string{enginePkg, metricPkg})
+			ruleLabelSetRangeWhole(r)
 		},
 	})
 }
